@@ -98,17 +98,131 @@ class Run:
         return tr
 
 
-def run_hpc(scn, seed, debug=False, keep=False):
+def run_hpc(scn, seed, debug=False, keep=False, eager=0.0):
     """submit-jobs, random interleaving of everything, documented recovery until complete."""
     r = Run(scn, seed, debug=debug, keep=keep)
     try:
         r.submit()
-        r.drain()
+        r.drain(EagerUser(r, random_chooser(r.rng), prob=eager) if eager else None)
         if scn["mode"] != "local" and not any(g.get("dry") for g in scn["groups"]):
             r.recover()
         r.w.ev(e="end", recoveries=r.recoveries)
     finally:
         tr = r.finish()
+    return tr
+
+
+class EagerUser:
+    """Wraps a chooser: now and then the user runs the documented try-submit-jobs (or show-status -n) while batches are
+    still active -- not only when everything has gone quiet."""
+
+    def __init__(self, run, inner, prob=0.03, limit=4):
+        self.run, self.inner, self.prob, self.left = run, inner, prob, limit
+
+    def __call__(self, world, moves):
+        if self.left > 0 and self.run.rng.random() < self.prob and world.last_status.get(world.out) is not None \
+                and not any(p.alive and p.host == "user" for p in world.procs):
+            self.left -= 1
+            if self.run.rng.random() < 0.3:
+                self.run.user("show-status", "-o", world.out, "-n", host="user")
+            else:
+                self.run.user("try-submit-jobs", world.out, host="user")
+        return self.inner(world, moves)
+
+
+class Injector:
+    """Seeded random chooser that injects faults: at the k-th scheduling step of process `pid` (kill, node kill, failed
+    write, failed lock acquisition), or a user command at global step `t` (usertry)."""
+
+    def __init__(self, rng, plan, run=None):
+        self.rng, self.run = rng, run
+        self.plans = [] if plan is None else (plan if isinstance(plan, list) else [plan])
+        self.fired = [False] * len(self.plans)
+        self.done = False
+
+    def _stalled(self, world, mv):
+        """A stall plan holds the user's command at its j-th step until every other injection has fired."""
+        if mv[0] != "step":
+            return False
+        q = world.proc(mv[1])
+        for i, pl in enumerate(self.plans):
+            if pl["kind"] == "stall" and q.host == "user" and q.nsteps == pl["j"]:
+                others = [f for k2, f in enumerate(self.fired) if self.plans[k2]["kind"] not in ("stall", "usertry")]
+                if not all(others):
+                    return True
+        return False
+
+    def __call__(self, world, moves):
+        for i, pl in enumerate(self.plans):
+            if not self.fired[i] and pl["kind"] == "usertry" and self.run is not None:
+                st = world.last_status.get(world.out)
+                if pl.get("when") == "free":
+                    go = st is not None and st["sub"] == "" and not st["complete"] and world._active() > 0
+                else:
+                    go = st is not None and world.steps >= pl["t"]
+                if go:
+                    self.fired[i] = True
+                    self.run.user("try-submit-jobs", world.out, host="user")
+        free = [m for m in moves if not self._stalled(world, m)]
+        if free:
+            moves = free
+        mv = moves[self.rng.randrange(len(moves))]
+        for i, pl in enumerate(self.plans):
+            if self.fired[i] or pl["kind"] in ("usertry", "stall"):
+                continue
+            if mv[0] != "step":
+                continue
+            q = world.proc(mv[1])
+            if "b" in pl:      # target named by its batch (process ids shift when user commands are injected)
+                hit = q.label == pl.get("label", "run-jobs") and world._bnum(q.batch) == pl["b"]
+            else:
+                hit = mv[1] == pl["pid"]
+            if hit and q.nsteps == pl["k"] and not (pl["kind"] == "nodekill" and q.batch is None):
+                self.fired[i] = True
+                self.done = True
+                kind = pl["kind"]
+                if kind == "kill":
+                    return ("kill", mv[1], "sweep")
+                if kind == "nodekill":
+                    return ("nodekill", world.proc(mv[1]).batch, "kill")
+                if kind == "failwrite":
+                    world.arm_fault(mv[1], "write", 1)
+                elif kind == "faillock":
+                    world.arm_fault(mv[1], "lock", 1)
+        return mv
+
+
+def run_fault(scn, seed, plan=None, fault_mode=False, recover_rounds=None, debug=False, eager=0.0):
+    """A seeded random run with (at most) one injected fault, followed by the documented recovery.
+    With plan=None this is the baseline whose per-process operation lists enumerate the injection points."""
+    r = Run(scn, seed, fault_mode=fault_mode, debug=debug)
+    inj = Injector(r.rng, plan, run=r)
+    ops = {}
+    try:
+        r.submit()
+        if plan is None:
+            # record which operation each process is parked at before each of its steps
+            def chooser(world, moves):
+                mv = inj(world, moves)
+                if mv[0] == "step":
+                    p = world.proc(mv[1])
+                    ops.setdefault(p.pid, {"label": p.label, "ops": []})["ops"].append(
+                        [p.req["op"], os.path.basename(p.req.get("path") or "") or (os.path.basename(p.req["argv"][0]) if p.req.get("argv") else "")])
+                return mv
+        else:
+            chooser = inj
+        if eager:
+            chooser = EagerUser(r, chooser, prob=eager)
+        r.drain(chooser)
+        if not any(g.get("dry") for g in scn["groups"]):
+            # with max_nodes=1 a node's own round can never submit (its batch still counts): one user round per batch
+            r.recover(max_rounds=recover_rounds or len(scn["jobs"]) + 3, chooser=chooser, how="try-submit-jobs")
+        r.w.ev(e="end", recoveries=r.recoveries, full=True)
+    finally:
+        tr = r.finish()
+    tr["ops"] = ops
+    tr["plan"] = plan
+    tr["injected"] = inj.done
     return tr
 
 
